@@ -451,6 +451,29 @@ func C17(c *core.Ctx) {
 			}
 		}
 		c.Check("R4", "recv-stops-timer", a.txRecv.Pos(), stopped, "TxTransaction.recv stops the retransmission timer on every path")
+		// the periodic server returns (and closes its event channel) only after every ticker goroutine has
+		// taken its stop signal: the stop channel is unbuffered, so stopTicker's send is a rendezvous
+		if stopF := p.Field(pkgPerio, "PERIOGroup", "stopCh"); stopF != nil {
+			k := 0
+			for _, fn := range p.OwnFuncs() {
+				for _, st := range storesToField(fn, stopF) {
+					k++
+					mk, isMk := st.Val.(*ssa.MakeChan)
+					sz, isK := int64(-1), false
+					if isMk {
+						sz, isK = core.ConstInt(mk.Size)
+					}
+					c.Check("R4", "ticker-stop-rendezvous:"+core.FnName(fn), st.Pos(), isMk && isK && sz == 0,
+						"PERIOGroup.stopCh is an unbuffered channel: stopTicker returns only when the ticker goroutine has received the signal (with a buffered channel the server closes evtCh while tickers may still send)")
+				}
+			}
+			c.Floor("R4", k, 1, "stores to PERIOGroup.stopCh")
+		}
+		timerArmers(c, "R4", a)
+		// a timer callback posts an event of its own transaction type for its own id: an RX timer posting TX is
+		// looked up in the wrong table, the entry is never released and its timer is never found by Stop
+		checkTimerCallback(c, "R4", a.rxStart, "RxTransaction", 1, "timeout")
+		checkTimerCallback(c, "R4", a.txStart, "TxTransaction", 0, "retransTimeout")
 	}
 }
 
@@ -661,6 +684,12 @@ func C18(c *core.Ctx) {
 		}
 	}
 	c.Floor("R2", c.Counts["R2"], 2, "queue operations examined")
+	// progress of periodic reporting: ticks are never suppressed by state (shared with C15 R2), and a URR's
+	// registration is added / dropped only with the URR itself (C03 R8): "every report eventually forwarded"
+	tickAlwaysPosted(c, "R2")
+	shareFrom(c, "C03", "R2", func(o *core.Obligation) bool {
+		return o.Rule == "R8" && (strings.Contains(o.Key, "/R8/add-caller") || strings.Contains(o.Key, "/R8/del-caller") || strings.Contains(o.Key, "/R8/lossless-post"))
+	}, 3, "periodic registration call sites")
 	netlinkClientOwnership(c, "R3")
 }
 
